@@ -43,6 +43,10 @@ PURE_BUILTINS = {
     'isinstance', 'issubclass', 'hasattr', 'id', 'hash', 'callable', 'any',
     'all', 'sum', 'reversed', 'iter', 'map', 'filter', 'divmod', 'round',
     'object', 'memoryview', 'slice', 'vars', 'dir'}
+# pure builtins that refuse some arguments (and what they raise, when that is
+# one class): inside a try block the refusing path is followed
+RAISING_BUILTINS = {'hash': 'TypeError', 'int': None, 'float': None,
+                    'ord': 'TypeError', 'chr': None}
 NOT_NONE = ('obj', 'tuple', 'list', 'dict', 'set', 'fn', 'cls', 'partial',
             'methodcaller', 'attrgetter', 'itemgetter', 'ntcls', 'nt', 'ext',
             'mod', 'gen')
@@ -1294,6 +1298,11 @@ class PathSum(object):
                         else:
                             out.append((s2, v))
                     continue
+                if b[0] == 'call' and b[1] == ('ext', 'sys.exc_info') and \
+                        k == ('const', 1) and b[4] in self.__dict__.get(
+                            'excinfo', {}):
+                    out.append((s, self.excinfo[b[4]]))
+                    continue
                 out.append((s, self.index(b, k)))
             return out
         if isinstance(e, ast.Slice):
@@ -2124,6 +2133,8 @@ class PathSum(object):
             items = list(t[1])
         elif t[0] == 'nt':
             items = list(t[2])
+        elif t[0] == 'dict':
+            items = [k for k, _ in t[1]]      # a mapping iterates its keys
         elif is_const(t) and isinstance(t[1], (tuple, str)):
             items = [const(x) for x in t[1]]
         elif t[0] in ('sym', 'attr', 'obj', 'elem', 'phi'):
@@ -2891,8 +2902,22 @@ class PathSum(object):
             return [(st, ('call', fn, tuple(args), tuple(sorted(
                 kwargs.items())), next(self.uid)))]
         if nm in PURE_BUILTINS:
-            return [(st, ('op', nm, tuple(args) + tuple(
-                op('kw:' + k, v) for k, v in sorted(kwargs.items()))))]
+            out = []
+            if nm in RAISING_BUILTINS and self.implicit and \
+                    st.try_depth > 0 and st.outcome is None and \
+                    not all(is_const(a) for a in args):
+                # inside a try the author expects this conversion to fail
+                # for some argument: that path exists
+                r = st.fork()
+                xc = RAISING_BUILTINS[nm]
+                r.outcome = ('raise', ('call', ('builtin', xc), (), (),
+                                       next(self.uid)) if xc else
+                             ('exc', None, next(self.uid)), node,
+                             'implicit')
+                out.append((r, BOT))
+            out.append((st, ('op', nm, tuple(args) + tuple(
+                op('kw:' + k, v) for k, v in sorted(kwargs.items())))))
+            return out
         return self.opaque_call(fn, args, kwargs, st, fi, node, [])
 
     def never_returns(self, target):
@@ -2918,6 +2943,12 @@ class PathSum(object):
     def opaque_call(self, fn, args, kwargs, st, fi, node, targets):
         res = ('call', fn, tuple(args), tuple(sorted(kwargs.items())),
                next(self.uid))
+        if fn == ('ext', 'sys.exc_info') and not args and \
+                st.env.get('<exc>') is not None:
+            # inside a handler: the triple describes the exception being
+            # handled, so its [1] is that exception
+            self.__dict__.setdefault('excinfo', {})[res[4]] = \
+                st.env['<exc>']
         if targets and all(t in getattr(self, 'pure', ()) for t in targets):
             # a query without effects: a value, not an event; the same
             # question asked twice has the same answer
@@ -3441,7 +3472,8 @@ class PathSum(object):
             e.outcome = b.outcome
             e.heap = b.heap
             e.frames = b.frames
-            e.notes = b.notes
+            e.notes = list(b.notes) + ([('left-by-return', n, Path(b))]
+                                       if b.outcome[0] == 'return' else [])
             out.append(e)
         # leaving by `break`: the variables hold what that iteration left
         for b in breaks:
